@@ -66,6 +66,13 @@ StepOk(ev, post) ==
             /\ AllocateG(buf, ev.a) /\ IsLive(post, ev.a)
             /\ post = AllocateR(lim, buf, ev.a, ev.arg, post[ev.a].stor)
       [] ev.e = "clear" -> ClearG(buf, ev.a) /\ post = ClearR(buf, ev.a)
+      [] ev.e = "observe" ->           \* comparisons read values: equal iff the units are equal, and nothing changes
+            /\ IsLive(buf, ev.a) /\ IsLive(buf, ev.b) /\ post = buf
+            /\ LET same == buf[ev.a].val = buf[ev.b].val IN
+               /\ ev.obs.eq = (IF same THEN 1 ELSE 0) /\ ev.obs.ne = (IF same THEN 0 ELSE 1)
+               /\ (ev.obs.sign = 0) <=> same
+               /\ ev.obs.eqe = (IF buf[ev.a].val = <<>> THEN 1 ELSE 0)
+               /\ ev.obs.eqc = 1
       [] ev.e = "destroy" -> DestroyG(buf, ev.a) /\ post = DestroyR(buf, ev.a)
       [] OTHER -> FALSE
 
@@ -82,11 +89,12 @@ Accept(ev) ==
     /\ \/ Normal(ev) /\ StepOk(ev, post)
        \/ FaultOk(ev, post)
 
-PropOf(ev) == IF "fault" \in DOMAIN ev /\ ev.fault = 1 THEN <<"C19">> ELSE <<"C05">>
+PropOf(ev) == IF "fault" \in DOMAIN ev /\ ev.fault = 1 THEN <<"C19">>
+              ELSE IF ev.e = "observe" THEN <<"C06">> ELSE <<"C05">>
 Rej(ev, what) == [line |-> l, i |-> ev.i, k |-> 0, what |-> what, cls |-> ev.e, props |-> PropOf(ev), kf |-> "none"]
 
 OpNames == {"construct", "constructfill", "copyconstruct", "moveconstruct", "copyassign", "moveassign",
-            "allocate", "allocatefill", "clear", "destroy"}
+            "allocate", "allocatefill", "clear", "destroy", "observe"}
 
 TPlatform == Ev.e = "Platform" /\ UNCHANGED <<buf, lim, skipping, hadFault, book, nsteps, nfault>>
 
